@@ -458,4 +458,17 @@ def run_release(prog, rep):
         if (not valid or valid[0]) and (not dec or dec[0][1] != ('mem', 'hid', 'THIS')):
             probs.append('a valid id is not handed to H5Idec_ref')
     rule.check(not probs and bool(res), 'H5Object::dec', rep.where(de), de.label(), 'H5Idec_ref(hid) iff H5Iis_valid(hid)', '; '.join(sorted(set(probs))))
+    # assignment into a live wrapper: H5Object's move assignment takes the other id without releasing its own. That is harmless only
+    # while no wrapper whose id kind close() does not sweep (attributes: the mask is GROUP|DATASET|DATATYPE) can be move-assigned,
+    # i.e. while Attribute declares its own copy assignment (which suppresses the implicit move assignment) - or once the move
+    # assignment releases first
+    mv = [f for f in prog.fns(HO + '::operator=') if '&&' in f.sig and f.body is not None]
+    mv_releases = bool(mv) and any((c.callee or {}).get('name') in ('dec', 'close') for c in mv[0].calls())
+    att = prog.records.get('nix::hdf5::Attribute')
+    if att is None:
+        raise AnalysisBroken('R-HIDREL: nix::hdf5::Attribute not found')
+    own_copy = any(m['name'] == 'operator=' and 'const nix::hdf5::Attribute &' in m['sig'] for m in att['methods'])
+    rule.check(mv_releases or own_copy or not mv, 'Attribute|no-leaking-move-assignment', '%s:%s' % (prog.rel(att['file']), att['line']), 'nix::hdf5::Attribute',
+               'Attribute declares its copy assignment (no implicit move assignment)' if own_copy else 'H5Object move assignment releases the id it held',
+               'Attribute can be move-assigned (no user-declared copy assignment) and H5Object::operator=(H5Object&&) does not release the id the target held: an attribute id assigned over leaks, close() does not sweep attribute ids, libhdf5 keeps the file open and unflushed after close()')
     return rule
